@@ -208,11 +208,70 @@ Definition key_ok (k : str) : bool :=
 Fixpoint nodup_keys (l : list str) : bool :=
   match l with [] => true | k :: l' => negb (mem_key k l') && nodup_keys l' end.
 
+(* the type set has a well-formed, lower-case authority (authorities are URIs; a map key carries the authority
+   in lower case and typeSet.GetType compares it as it is), simple well-formed type names, and no two
+   type names with the same map key *)
+Definition ts_tn (ts : tset) (kv : str * val) : tname := new_typed_name ns_type (fst kv) (ts_auth ts).
 Definition ts_wf (ts : tset) : bool :=
-  tn_wf (ts_typed_name ts)
-  && forallb (fun kv => tn_wf (new_typed_name ns_type (fst kv) (ts_auth ts)) && negb (is_qualified (new_typed_name ns_type (fst kv) (ts_auth ts)))) (ts_types ts)
-  && nodup_keys (map (fun kv => to_lower (fst kv)) (ts_types ts)).
+  tn_wf (ts_typed_name ts) && str_eqb (to_lower (ts_auth ts)) (ts_auth ts)
+  && forallb (fun kv => tn_wf (ts_tn ts kv) && negb (is_qualified (ts_tn ts kv)) && negb (starts_cc (fst kv))) (ts_types ts)
+  && nodup_keys (map (fun kv => map_key (ts_tn ts kv)) (ts_types ts)).
 
 Definition cfg_wf (cfg : config) : bool :=
   forallb key_ok (map fst (cfg_static cfg)) && nodup_keys (map fst (cfg_static cfg))
   && forallb ts_wf (cfg_tsets cfg).
+
+(* ---------------------------------------------------------------------------------------------- *)
+(* Notions used in the statements of the corollaries (Properties/C12.v) *)
+
+(* the result of operation o after the history ops *)
+Definition result_after (cfg : config) (ops : list op) (o : op) : out := snd (step cfg (fst (run cfg ops)) o).
+
+Definition parent_of (k : lkind) : option nat :=
+  match k with KParented p | KTypeSet p _ => Some p | _ => None end.
+
+(* proper ancestors of a loader *)
+Inductive ancestor (a : astate) : nat -> nat -> Prop :=
+| anc_parent l nd p : nth_error a l = Some nd -> parent_of (akind nd) = Some p -> ancestor a l p
+| anc_step l nd p q : nth_error a l = Some nd -> parent_of (akind nd) = Some p -> ancestor a p q -> ancestor a l q.
+
+(* the binding the loader that receives l's definitions owns for the name *)
+Definition spec_own_binding (a : astate) (l : nat) (n : tname) : option val :=
+  match def_target (S l) a l with Some t => assoc (map_key n) (own_binds a t) | None => None end.
+
+(* names that differ only in the letter case of the name part *)
+Definition tn_case_variant (n n' : tname) : bool :=
+  str_eqb (tn_auth n) (tn_auth n') && str_eqb (tn_ns n) (tn_ns n') && str_eqb (to_lower (tn_name n)) (to_lower (tn_name n')).
+
+Definition op_case_variant (o o' : op) : bool :=
+  match o, o' with
+  | ODefine l n v, ODefine l' n' v' => Nat.eqb l l' && tn_case_variant (norm n) (norm n') && val_eqb v v'
+  | OLoad l n, OLoad l' n' | OLoadEntry l n, OLoadEntry l' n' | OGetEntry l n, OGetEntry l' n' | OHas l n, OHas l' n' =>
+      Nat.eqb l l' && tn_case_variant (norm n) (norm n')
+  | _, _ => false
+  end.
+
+(* strictly increasing in the byte order of Go's string comparison (hence without duplicates) *)
+Fixpoint strictly_sorted (l : list str) : Prop :=
+  match l with
+  | [] => True
+  | x :: l' => match l' with [] => True | y :: _ => str_ltb x y = true /\ strictly_sorted l' end
+  end.
+
+(* the typed names a loader lists: the names it binds itself unless its parent resolves them, and the names
+   its parent lists; for a type-set loader the types of its set and the names its parent lists that the
+   set does not shadow *)
+Inductive listed (a : astate) : nat -> tname -> Prop :=
+| listed_root l nd k tn : nth_error a l = Some nd -> parent_of (akind nd) = None ->
+    In k (map fst (abind nd)) -> tn_of_key k = Some tn -> listed a l tn
+| listed_parent l nd p tn : nth_error a l = Some nd -> akind nd = KParented p -> listed a p tn -> listed a l tn
+| listed_own l nd p k tn : nth_error a l = Some nd -> akind nd = KParented p ->
+    In k (map fst (abind nd)) -> tn_of_key k = Some tn -> spec_has a p tn = false -> listed a l tn
+| listed_tset l nd p ts kv : nth_error a l = Some nd -> akind nd = KTypeSet p ts -> In kv (ts_types ts) ->
+    listed a l (ts_tn ts kv)
+| listed_tset_parent l nd p ts tn : nth_error a l = Some nd -> akind nd = KTypeSet p ts -> listed a p tn ->
+    mem_key (map_key tn) (map (fun kv => map_key (ts_tn ts kv)) (ts_types ts)) = false -> listed a l tn.
+
+(* neither the loader nor any of its ancestors is a type-set loader *)
+Definition plain_chain (a : astate) (l : nat) : Prop :=
+  forall q nd p ts, (q = l \/ ancestor a l q) -> nth_error a q = Some nd -> akind nd <> KTypeSet p ts.
